@@ -49,7 +49,7 @@ EXTENDS NetPath, TraceKit
 
 VARIABLES l,          \* cursor
           hsok,       \* <<node, peer>>: handshake observed, firewall verdict pending
-          disc,       \* pending DisconnectPeer calls [a, b, renewed]
+          disc,       \* pending DisconnectPeer calls [id, a, b, renewed]
           regP, canP, \* [Handlers -> phase] of Recv / cancel calls
           csP,        \* [1..2 -> phase] of cancel calls of Send contexts
           tickCredit, \* ticks fed, not yet read by Ticker.start
@@ -130,17 +130,22 @@ TAdvance ==
 \* For A's own identity that is only possible if A ran the handshake properly (HsAccepts, from AdvHandshake).
 THandshakeDone ==
     /\ IsEvent("HandshakeDone")
+    /\ (Ev.ok => <<Ev.node, Ev.peer>> \in Ends)
     /\ IF Ev.ok
           THEN /\ (Ev.peer = "A" => HsAccepts(advMode.claim, advMode.proto, advMode.chalok))
                /\ hsok' = hsok \cup {<<Ev.node, Ev.peer>>}
           ELSE hsok' = hsok
     /\ UNCHANGED <<vars, disc, regP, canP, csP, tickCredit, advMode, advPubd>>
 
+\* what A can write to node n: its own publications; towards R also what S published (relay / replay)
+AdvHas(n) == advPubd \cup (IF n = "R" THEN {SEnv(k) : k \in 1..counter["S"]} ELSE {})
+
 Renew(n, p) == {IF {d.a, d.b} = {n, p} THEN [d EXCEPT !.renewed = TRUE] ELSE d : d \in disc}
 
 \* checkFirewallRules on a fresh connection (NodeValidate = FWR!Validate / FWS!Validate)
 TFwConn ==
     /\ IsEvent("FirewallVerdict") /\ Ev.kind = "conn"
+    /\ <<Ev.node, Ev.peer>> \in Ends          \* a node validates a remote peer, never itself or a stranger
     /\ <<Ev.node, Ev.peer>> \in hsok /\ hsok' = hsok \ {<<Ev.node, Ev.peer>>}
     /\ LET n == Ev.node p == Ev.peer IN
          /\ NodeValidate(n, p, Ev.res = "error")
@@ -150,13 +155,16 @@ TFwConn ==
                     /\ adm' = [adm EXCEPT ![<<n, p>>] = AdmRec(n, p)]
                     /\ everAdm' = [everAdm EXCEPT ![n] = @ \cup {p}]
                     /\ disc' = Renew(n, p)
-               ELSE UNCHANGED <<cs, adm, everAdm, disc>>        \* a connection that exists already stays
+                    \* A writes what it has (its own publications, S's) to the new connection right away
+                    /\ wire' = IF p = "A" THEN wire \cup {[to |-> n, hop |-> "A", env |-> e] : e \in AdvHas(n)} ELSE wire
+               ELSE UNCHANGED <<cs, adm, everAdm, disc, wire>>        \* a connection that exists already stays
     /\ UNCHANGED <<recog, nchain, nerr, hsVars, sessVars, claimed, ndrops, nadvdials, bcVars, ticks, rt1Vars, rt2Vars,
-                   netVars, ghostVars, regP, canP, csP, tickCredit, advMode, advPubd>>
+                   inbox, advUsed, ghostVars, regP, canP, csP, tickCredit, advMode, advPubd>>
 
 \* watchtower: Validate of a connected peer; the DisconnectPeer of a rejection is seen as DisconnectCall/Ret
 TFwGuard ==
     /\ IsEvent("FirewallVerdict") /\ Ev.kind = "guard"
+    /\ <<Ev.node, Ev.peer>> \in Ends
     /\ LET n == Ev.node p == Ev.peer IN
          /\ NodeValidate(n, p, Ev.res = "error")
          /\ LastP(n).res = Ev.res /\ (LastP(n).asked > 0) = Ev.asked
@@ -169,7 +177,7 @@ TFwGuard ==
 
 TDisconnectCall ==
     /\ IsEvent("DisconnectCall")
-    /\ disc' = disc \cup {[a |-> Ev.a, b |-> Ev.b, renewed |-> FALSE]}
+    /\ disc' = disc \cup {[id |-> l, a |-> Ev.a, b |-> Ev.b, renewed |-> FALSE]}   \* id: calls for the same pair stay apart
     /\ UNCHANGED <<vars, hsok, regP, canP, csP, tickCredit, advMode, advPubd>>
 
 \* the connection is gone once DisconnectPeer has returned - unless a new one was admitted meanwhile
@@ -214,12 +222,37 @@ TCancelRet ==
 ---------------------------------------------------------------------------
 \* sender S
 
+\* SendS / Callback with the floodsub relay through A added to the publication: A, if connected to R, forwards
+\* what S publishes (A is told everything S publishes - an over-approximation on the safe side)
+ViaA(k) == IF Up("A", "R") THEN {[to |-> "R", hop |-> "A", env |-> SEnv(k)]} ELSE {}
+SendSVia(k) ==
+    /\ k = counter["S"] + 1 /\ k <= MaxSend /\ k <= 2
+    /\ BC!Send("S")
+    /\ IF k = 1 THEN reg1' = TRUE /\ UNCHANGED <<live1, pc1, tc1, delay1, rt1, retx1, sac1, rt2Vars>>
+                ELSE reg2' = TRUE /\ UNCHANGED <<live2, pc2, tc2, delay2, rt2, retx2, sac2, rt1Vars>>
+    /\ wire' = wire \cup (IF SendUp("S", "R") THEN {[to |-> "R", hop |-> "S", env |-> SEnv(k)]} ELSE {}) \cup ViaA(k)
+    /\ pubs' = [pubs EXCEPT ![k] = @ + 1]
+    /\ UNCHANGED <<clock, fwRvars, fwSvars, chainVars, hsVars, sessVars, connVars, ticks, inbox, advUsed, forged, readLog>>
+CallbackVia(k) ==
+    /\ IF k = 1
+          THEN /\ \E g \in DOMAIN pc1 : pc1[g] = "start"
+               /\ IF Backoff1 THEN RT1!AtomicTick(FirstStart(pc1)) ELSE RT1!Call(FirstStart(pc1))
+               /\ UNCHANGED rt2Vars
+          ELSE /\ \E g \in DOMAIN pc2 : pc2[g] = "start"
+               /\ IF Backoff2 THEN RT2!AtomicTick(FirstStart(pc2)) ELSE RT2!Call(FirstStart(pc2))
+               /\ UNCHANGED rt1Vars
+    /\ LET fires == IF k = 1 THEN (Backoff1 => tc1 + 1 = rt1) ELSE (Backoff2 => tc2 + 1 = rt2) IN
+         IF fires THEN /\ wire' = wire \cup (IF SendUp("S", "R") THEN {[to |-> "R", hop |-> "S", env |-> SEnv(k)]} ELSE {}) \cup ViaA(k)
+                       /\ pubs' = [pubs EXCEPT ![k] = @ + 1]
+                  ELSE UNCHANGED <<wire, pubs>>
+    /\ UNCHANGED <<clock, fwRvars, fwSvars, chainVars, hsVars, sessVars, connVars, bcVars, inbox, advUsed, forged, readLog>>
+
 \* channel.Send reached the publisher with a new message: SendS (number, schedule, first publication).
 \* The envelope must name S and carry the next number of S's counter.
 TPublishedS ==
     /\ IsEvent("Published") /\ Ev.node = "S"
     /\ Ev.author = "S" /\ Ev.inner = "S" /\ Ev.seqno = counter["S"] + 1
-    /\ SendS
+    /\ SendSVia(Ev.seqno)
     /\ UNCHANGED traceOnly
 
 \* a retransmission of S's k-th message reached the publisher: a tick callback whose strategy fires.
@@ -227,11 +260,12 @@ TPublishedS ==
 TRetransmitS ==
     /\ IsEvent("Retransmit") /\ Ev.node = "S"
     /\ Ev.k \in 1..2 /\ Ev.inner = "S" /\ Ev.seqno = Ev.k
-    /\ Callback(Ev.k) /\ pubs'[Ev.k] = pubs[Ev.k] + 1
+    /\ CallbackVia(Ev.k) /\ pubs'[Ev.k] = pubs[Ev.k] + 1
     /\ UNCHANGED traceOnly
 \* a callback of the backoff strategy that does not fire
 SQuietCallback ==
-    /\ \E k \in 1..2 : k <= MaxSend /\ Callback(k) /\ pubs' = pubs
+    /\ NextIs("Retransmit") /\ Ev.k \in 1..2      \* only needed to let the firing callback come
+    /\ CallbackVia(Ev.k) /\ pubs' = pubs
     /\ UNCHANGED <<l, traceOnly>>
 
 TTickCall ==
@@ -262,7 +296,7 @@ TCancelSendRet ==
 \* adversary A (a real floodsub node under the harness' control)
 
 \* A's channel handed an envelope to its topic: own message (next number of A's counter), impostor, garbage.
-\* Copies go to the nodes A is connected to; it may hand it to later connections too (SAdvWire).
+\* Copies go to the nodes A is connected to now, and to later connections when they come up (TFwConn).
 TPublishedA ==
     /\ IsEvent("Published") /\ Ev.node = "A" /\ Ev.author = "A"
     /\ LET e == [author |-> "A", inner |-> Ev.inner, seq |-> Ev.seqno, sig |-> "ok"] IN
@@ -273,20 +307,9 @@ TPublishedA ==
     /\ UNCHANGED <<clock, fwRvars, fwSvars, chainVars, hsVars, sessVars, connVars, ticks, rt1Vars, rt2Vars,
                    inbox, advUsed, ghostVars, hsok, disc, regP, canP, csP, tickCredit, advMode>>
 
-\* what A published before a connection existed, and what S published (A relays / replays it), may be
-\* written to a connection of A at any later time. Taken only when the next event needs it.
-Relayable == advPubd \cup {SEnv(k) : k \in 1..counter["S"]}
-SAdvWire ==
-    /\ NextIs("Arrived") /\ E(Ev.env) \in Relayable /\ E(Ev.env) \notin inbox
-    /\ \E n \in Honest :
-         /\ Up("A", n) /\ [to |-> n, hop |-> "A", env |-> E(Ev.env)] \notin wire
-         /\ wire' = wire \cup {[to |-> n, hop |-> "A", env |-> E(Ev.env)]}
-    /\ UNCHANGED <<clock, fwRvars, fwSvars, chainVars, hsVars, sessVars, connVars, bcVars, ticks, rt1Vars, rt2Vars,
-                   inbox, advUsed, ghostVars, l, traceOnly>>
-
 \* the harness plays A's relay itself: an envelope handed to R's processPubsubMessage while A is connected to R
 TInject ==
-    /\ IsEvent("Inject") /\ Up("A", "R") /\ E(Ev.env) \in Relayable
+    /\ IsEvent("Inject") /\ Up("A", "R") /\ E(Ev.env) \in AdvHas("R")
     /\ wire' = wire \cup {[to |-> "R", hop |-> "A", env |-> E(Ev.env)]}
     /\ UNCHANGED <<clock, fwRvars, fwSvars, chainVars, hsVars, sessVars, connVars, bcVars, ticks, rt1Vars, rt2Vars,
                    inbox, advUsed, ghostVars, traceOnly>>
@@ -295,10 +318,11 @@ TInject ==
 \* R's channel
 
 \* processContainerMessage at R got as far as unmarshalling the payload: Process (verdict, deliver)
+\* (the pubsub seen-cache is not modelled: what R has read once it may process again)
 TArrived ==
     /\ IsEvent("Arrived")
-    /\ Process(E(Ev.env))
-    /\ UNCHANGED traceOnly
+    /\ E(Ev.env) \in inbox /\ Handle(E(Ev.env))
+    /\ UNCHANGED <<inbox, traceOnly>>
 
 \* processPubsubMessage returned an error for the envelope just processed: the specification drops it too,
 \* for the same reason
@@ -318,18 +342,36 @@ TDelivered ==
     /\ UNCHANGED <<nonBc, traceOnly>>
 
 ---------------------------------------------------------------------------
-\* silent steps
+\* silent steps. The order in which TLC may place them is restricted to orders that explain at least as much
+\* as any other (so that a trace the specification cannot explain is refuted after a small search):
+\*  - reading from a connection as early as possible is never worse than reading later (R keeps what it read;
+\*    S only reads when it can forward: reading without forwarding explains nothing);
+\*  - the filter and the handler's return touch nothing else; a tick read earlier spawns no fewer callbacks, a
+\*    Send context cancelled earlier than necessary is only needed against a pending tick - both orders are tried
+\*    only when a tick and a cancellation are pending together;
+\*  - a callback that does not fire, and the way of a message through deliver(), queue and context check, are
+\*    only taken when the next event needs them (a Retransmit / a Delivered) or while a handler's cancel() is
+\*    in progress (what was checked before the cancellation may be delivered after it).
+ReadableR == {c \in wire : c.to = "R" /\ Up("R", c.hop)}
+ReadableS == {c \in wire : c.to = "S" /\ Up("S", c.hop) /\ SendUp("S", "R") /\ c.env.author # "S"}
+UrgH    == \E h \in Handlers : pc[h] \in {"checked", "running"}
+UrgNet  == ReadableR \cup ReadableS # {}
+UrgTick == tickCredit > 0 /\ \A k \in 1..2 : csP[k] # "called"
+UrgCS   == tickCredit = 0 /\ \E k \in 1..2 : csP[k] = "called"
+Urgent  == UrgH \/ UrgNet \/ UrgTick \/ UrgCS
+SUrgent ==
+    IF UrgH THEN (BC!DoFilterDup \/ BC!DoReturn) /\ UNCHANGED <<nonBc, l, traceOnly>>
+    ELSE IF UrgNet THEN NetRead(CHOOSE c \in ReadableR \cup ReadableS : TRUE) /\ UNCHANGED <<l, traceOnly>>
+    ELSE IF UrgTick THEN STickAll
+    ELSE SCancelSend(CHOOSE k \in 1..2 : csP[k] = "called")
 
-Urgent == \E h \in Handlers : pc[h] \in {"checked", "running"}
-SUrgent == (BC!DoFilterDup \/ BC!DoReturn) /\ UNCHANGED <<nonBc, l, traceOnly>>
-
+CancelWindow == \E h \in Handlers : canP[h] = "called"
 Silent ==
     \/ \E h \in Handlers : SRegister(h) \/ SCancel(h)
     \/ \E k \in 1..2 : SCancelSend(k)
-    \/ STickAll \/ SQuietCallback \/ SAdvWire
-    \/ (\E c \in wire : NetRead(c)) /\ UNCHANGED <<l, traceOnly>>
+    \/ STickAll \/ SQuietCallback
     \/ /\ UNCHANGED <<nonBc, l, traceOnly>>
-       /\ \/ BC!DoTrySend \/ BC!DoDequeue \/ BC!DoCheckCtx
+       /\ \/ ((NextIs("Delivered") \/ CancelWindow) /\ (BC!DoTrySend \/ BC!DoDequeue \/ BC!DoCheckCtx))
           \/ ((\E h \in Handlers : regP[h] = "called") /\ (BC!DoRemoveHandler \/ BC!DoExitOnDone))
 
 Pinned ==
